@@ -891,11 +891,9 @@ func (sdb *DbSqlite) updateEdgeHash(tx *sql.Tx, edge data.Edge, parentID string,
 	cache := make(map[string]uint32)
 	cache[edge.ID] = edge.Hash ^ hashUpdate
 
-	if parentID != "none" {
-		err := sdb.updateHashHelper(tx, parentID, hashUpdate, cache)
-		if err != nil {
-			return err
-		}
+	err := sdb.updateHashHelper(tx, parentID, hashUpdate, cache)
+	if err != nil {
+		return err
 	}
 
 	return sdb.writeHashes(tx, cache)
@@ -947,11 +945,9 @@ func (sdb *DbSqlite) updateHashHelper(tx *sql.Tx, id string, hashUpdate uint32, 
 
 		cache[e.ID] ^= hashUpdate
 
-		if e.Up != "none" {
-			err := sdb.updateHashHelper(tx, e.Up, hashUpdate, cache)
-			if err != nil {
-				return err
-			}
+		err := sdb.updateHashHelper(tx, e.Up, hashUpdate, cache)
+		if err != nil {
+			return err
 		}
 	}
 	return nil
